@@ -1015,13 +1015,16 @@ def edit(rng, p):
 WS_BASES = ["annual report.doc", "a b", "Program Files", "x y z", "New  Folder"]
 
 
-def near_duplicates(rng, p):
+def near_duplicates(rng, p, force_qualifier=False):
     """-> [(ast, name)]: p with ONE constant respelled / slightly changed: string constants that differ only in
     white space inside the quotes, in case, in an escaped character; numbers spelled 1 / 1.0 / +1; sets reordered"""
     quals = [(path, e) for path, e in positions(p) if e[0] == "qual" and e[2][0] in ("within", "withinf")]
-    if quals and rng.random() < 0.3:
+    if quals and (force_qualifier or rng.random() < 0.3):
         # the WITHIN window: n = n.0 = n.00, but n.2, n.5, n.999 and n + 1 are other windows
-        path, e = rng.choice(quals)
+        # prefer a window around something that binds several observations (on a single one every window is the same)
+        multi = [x for x in quals if any(y[0] in ("oand", "ofby") or (y[0] == "qual" and y[2][0] == "repeat" and y[2][1] >= 2)
+                                         for _, y in positions(x[1][1]))]
+        path, e = rng.choice(multi or quals)
         n = int(decimal.Decimal(str(e[2][1])))
         alts = [(("within", n), "whole"), (("withinf", "%d.0" % n), "point-zero"), (("withinf", "%d.00" % n), "point-zero-zero"),
                 (("withinf", "%d.2" % n), "point-two"), (("withinf", "%d.5" % n), "point-five"), (("withinf", "%d.50" % n), "point-five-zero"),
